@@ -8,6 +8,12 @@ COMMON_TRUSTED = [
 ]
 
 CONF = {
+    "C19": {
+        "n": {"quick": 600, "thorough": 9000},
+        "shard": 300,
+        "trusted_base": ["the placeholder report's resolver is the token-level model of C11 applied to the default delimiters (tokenisation of byte strings into ${ } : and characters)", "fmt %v of ints/bools/strings (floats are not generated)"],
+        "assumptions": ["values mention leaf keys acyclically (a true cycle makes the resolver panic by contract; a mention of a container key makes Lookup's type assertion panic)"],
+    },
     "C18": {
         "n": {"quick": 500, "thorough": 8000},
         "shard": 250,
